@@ -83,6 +83,10 @@ def main():
                         out.update(status="fails", desc=str(desc), model=m)
                         break
                 out["tried"] = n
+        elif req["mode"] == "bounded":
+            # a bounded stand-in: target(tier, seed) -> {"bound": str, "cases": int, "failures": [{"desc":..,"case":..}]}
+            r = target(req.get("tier", "quick"), req.get("seed", 0))
+            out.update(status="fails" if r.get("failures") else "holds", **r)
         elif req["mode"] == "finding":
             # target is a function m -> (still_fails, desc)
             still, desc = target(req["model"])
